@@ -161,7 +161,20 @@ def collect_sites(repo: Repo, modules=None):
             continue
         m = repo.mod(mn)
         cache = {}
-        for c in ast.walk(m.tree):
+        seen_calls = set()
+        roots = [f for f in m.funcs.values() if isinstance(f, (ast.FunctionDef, ast.AsyncFunctionDef))]
+        # statements outside any function (module level, class bodies) are walked on the raw tree, without descending into defs
+        def outside(node):
+            for ch in ast.iter_child_nodes(node):
+                if isinstance(ch, (ast.FunctionDef, ast.AsyncFunctionDef)):
+                    continue
+                yield ch
+                yield from outside(ch)
+        nodes_iter = [c for f in roots for c in ast.walk(f)] + list(outside(m.tree))
+        for c in nodes_iter:
+            if id(c) in seen_calls:
+                continue
+            seen_calls.add(id(c))
             if isinstance(c, ast.Call) and isinstance(c.func, ast.Name):
                 nm = c.func.id
                 if nm not in cache:
